@@ -1,4 +1,5 @@
-import NixModel.Lemmas.C13Refs
+import NixModel.Lemmas.C13Shape
+import NixModel.Generated.FindShape
 
 /-!
 # C13 — tree searches, parents and 'referring' lists reflect the stored structure
@@ -143,6 +144,138 @@ theorem referring_once (f : File) (h : WF f) (k : Nat) :
     ∀ b ∈ f.blocks, (∀ kind, (srcRefHolders b kind k).Nodup) ∧ (srcRefObjects b k).Nodup :=
   ⟨refBlocks_nodup h k, fun _ => refHolders_nodup h _ k, refSources_nodup h k, refObjects_nodup h k,
    fun _ hb => ⟨fun _ => srcRefHolders_nodup h hb _ k, srcRefObjects_nodup h hb k⟩⟩
+
+/-! ## the same, about the code as `harness/extract/findshape.py` reads it from the source
+
+`Nix.Generated.FindShape.*` is regenerated from `nixio/util/find.py`, `section.py`, `source.py`,
+`block.py`, `file.py` on every run; `Pure/TreeShape.lean` interprets it (this is what the driver of the
+correspondence executes).  An edit of the source that changes a comparison operator, a level constant,
+the defaulting of the limit, a containment key, the container a referring list scans or the lists
+`referring_objects` joins changes a generated constant and breaks one of the theorems below. -/
+
+section Code
+open Nix.Tree.Shape Nix.Generated
+
+/-- the four public search methods exist, start at the entity itself exactly for Section / Source, … -/
+theorem find_methods :
+    FindShape.wrappers.map (fun w => (w.cls, w.method, w.selfIsNode, w.finder.name)) =
+      [("File", "find_sections", false, "_find_sections"), ("Section", "find_sections", true, "_find_sections"),
+       ("Block", "find_sources", false, "_find_sources"), ("Source", "find_sources", true, "_find_sources")] := rfl
+
+/-- … and each of them, for **every** forest, filter and limit (also `None`), returns the breadth-first
+enumeration within the limit, filtered (`find_bfs`, `find_unlimited` transfer to the code as extracted);
+in particular no limit — `0` included — is treated as "no limit", and no search raises -/
+theorem find_code (w : Wrapper) (hw : w ∈ FindShape.wrappers) (root : Root) (filt : Node → Bool) :
+    (∀ limit : Nat, findW w root filt (some limit) =
+        .ok ((levels (limit + 1 - root.base) root.members).filter filt)) ∧
+    (heightL root.members + root.base ≤ maxsize + 1 →
+      findW w root filt none = .ok ((levels (heightL root.members) root.members).filter filt)) := by
+  have hc : ∀ w ∈ FindShape.wrappers, w.Canonical := by decide
+  refine ⟨fun limit => ?_, fun h => ?_⟩
+  · rw [findW_eq w (hc w hw), find_bfs]
+  · rw [findW_eq w (hc w hw), (find_unlimited root filt h).1]
+
+/-- `Section.find_related` as extracted: for a top-level section the section and its children; for a
+section below `p`: `p`, the children of `p` without the section itself, then the section and its children
+(filtered, in this order) -/
+theorem find_related_code (f : File) (h : WF f) (useCache : Bool) (filt : Node → Bool) :
+    (∀ x ∈ f.sections, findRelatedG FindShape.sectionParent FindShape.related f x.key useCache filt =
+        .ok ((x :: x.children).filter filt)) ∧
+    (∀ p ∈ nodesL f.sections, ∀ x ∈ p.children,
+      findRelatedG FindShape.sectionParent FindShape.related f x.key useCache filt =
+        .ok (eraseKey x.key ((p :: p.children).filter filt) ++ (x :: x.children).filter filt)) := by
+  have h3 : FindShape.related.finder.Canonical := by decide
+  constructor
+  · intro x hx
+    rw [findRelatedG_root _ _ (by decide) (by decide) h3 h hx]
+    simp [FindShape.related, levels]
+  · intro p hp x hx
+    rw [findRelatedG_child _ _ (by decide) (by decide) h3 h hp hx]
+    simp [FindShape.related, levels]
+
+/-- `Section.parent` as extracted is the containing section, through every kind of handle -/
+theorem parent_code (f : File) (h : WF f) (useCache : Bool) :
+    (∀ x ∈ f.sections, sectionParentG FindShape.sectionParent f x.key useCache = .ok none) ∧
+    (∀ p ∈ nodesL f.sections, ∀ x ∈ p.children,
+      sectionParentG FindShape.sectionParent f x.key useCache = .ok (some p.key)) := by
+  have e := sectionParentG_eq FindShape.sectionParent (by decide) (by decide) f
+  simp only [e]
+  exact parent f h useCache
+
+/-- `Source.parent_source` as extracted is the containing source -/
+theorem parent_source_code (f : File) (h : WF f) (b : Block) (hb : b ∈ f.blocks) :
+    (∀ x ∈ b.sources, sourceParentG FindShape.sourceParent f x.key = .ok none) ∧
+    (∀ p ∈ nodesL b.sources, ∀ x ∈ p.children, sourceParentG FindShape.sourceParent f x.key = .ok (some p.key)) := by
+  have e := sourceParentG_eq FindShape.sourceParent (by decide) (by decide) f
+  simp only [e]
+  exact parent_source f h b hb
+
+/-- an entity of the file (block, group / array / tag / multi-tag, source at any depth) with key `k'`
+whose stored metadata link is the section `k` -/
+def RefersTo (f : File) (k' k : Nat) : Prop :=
+  (∃ b ∈ f.blocks, b.key = k' ∧ b.md = some k) ∨
+  (∃ b ∈ f.blocks, ∃ h ∈ b.holders, h.key = k' ∧ h.md = some k) ∨
+  (∃ b ∈ f.blocks, ∃ s ∈ nodesL b.sources, s.key = k' ∧ s.md = some k)
+
+/-- every `Section.referring_*` property as extracted compares ids and returns exactly the referrers of
+its kind (sources: at every depth) -/
+theorem referring_code (f : File) (k : Nat) (e : String × Scan) (he : e ∈ FindShape.sectionReferring) :
+    refList FindShape.sectionReferring f e.1 k = .ok (e.2.scope.spec f k) ∧ e.2.scope ≠ .sourcesTop := by
+  have hc : ∀ e ∈ FindShape.sectionReferring, e.2.Canonical := by decide
+  have hl : ∀ e ∈ FindShape.sectionReferring, FindShape.sectionReferring.lookup e.1 = some e.2 := by
+    intro e he
+    simp only [FindShape.sectionReferring, List.mem_cons, List.not_mem_nil, or_false] at he
+    rcases he with rfl | rfl | rfl | rfl | rfl | rfl <;> rfl
+  refine ⟨?_, (hc e he).2⟩
+  simp only [refList, hl e he, refScan_eq _ (hc e he)]
+
+/-- **`Section.referring_objects` as extracted = the inverse of all stored metadata links**: it never
+fails and names exactly the blocks, groups, arrays, tags, multi-tags and sources (any depth) whose
+metadata is the section -/
+theorem referring_objects_code (f : File) (hB : Bounded f) (k : Nat) :
+    refObjectsG FindShape.sectionReferring FindShape.sectionReferringObjects f k = .ok (refObjects f k) ∧
+    ∀ k', k' ∈ refObjects f k ↔ RefersTo f k' k := by
+  constructor
+  · have r := fun e he => (referring_code f k e he).1
+    simp only [FindShape.sectionReferring, List.mem_cons, List.not_mem_nil, or_false, forall_eq_or_imp,
+      forall_eq] at r
+    obtain ⟨r1, r2, r3, r4, r5, r6⟩ := r
+    simp only [FindShape.sectionReferringObjects, refObjectsG, FindShape.sectionReferring] at r1 r2 r3 r4 r5 r6 ⊢
+    rw [r1, r2, r3, r4, r5, r6]
+    simp [Scope.spec, refObjects]
+  · intro k'
+    rw [(referring_inverse f k k').2.2, (referring_inverse f k k').1, referring_sources_inverse f hB]
+    simp only [(referring_inverse f k k').2.1, RefersTo]
+    constructor
+    · rintro (h | ⟨kind, b, hb, hd, hh, _, hk, hm⟩ | h)
+      · exact .inl h
+      · exact .inr (.inl ⟨b, hb, hd, hh, hk, hm⟩)
+      · exact .inr (.inr h)
+    · rintro (h | ⟨b, hb, hd, hh, hk, hm⟩ | h)
+      · exact .inl h
+      · exact .inr (.inl ⟨hd.kind, b, hb, hd, hh, rfl, hk, hm⟩)
+      · exact .inr (.inr h)
+
+/-- **`Source.referring_*` / `referring_objects` as extracted = the inverse of the stored `sources`
+links** of the source's block -/
+theorem source_referring_code (b : Block) (k : Nat) :
+    (∀ e ∈ FindShape.sourceReferring, srcRefList FindShape.sourceReferring b e.1 k = .ok (srcRefHolders b e.2.kind k)) ∧
+    FindShape.sourceReferring.map (fun e => e.2.kind) = [.group, .dataArray, .tag, .multiTag] ∧
+    srcRefObjectsG FindShape.sourceReferring FindShape.sourceReferringObjects b k = .ok (srcRefObjects b k) ∧
+    ∀ k', k' ∈ srcRefObjects b k ↔ ∃ h ∈ b.holders, h.key = k' ∧ k ∈ h.srcs := by
+  have hl : ∀ e ∈ FindShape.sourceReferring, srcRefList FindShape.sourceReferring b e.1 k = .ok (srcRefHolders b e.2.kind k) := by
+    intro e he
+    simp only [FindShape.sourceReferring, List.mem_cons, List.not_mem_nil, or_false] at he
+    rcases he with rfl | rfl | rfl | rfl <;> rfl
+  refine ⟨hl, rfl, ?_, fun k' => (source_referring_inverse b k k').2⟩
+  have r := hl
+  simp only [FindShape.sourceReferring, List.mem_cons, List.not_mem_nil, or_false, forall_eq_or_imp, forall_eq] at r
+  obtain ⟨r1, r2, r3, r4⟩ := r
+  simp only [FindShape.sourceReferringObjects, srcRefObjectsG, FindShape.sourceReferring] at r1 r2 r3 r4 ⊢
+  rw [r1, r2, r3, r4]
+  simp [srcRefObjects]
+
+end Code
 
 /-! ## non-vacuity: the states of the repaired defects are reachable and the answers are the owners -/
 
